@@ -78,9 +78,23 @@ def worker(job):
     return out
 
 
+def corpus():
+    import json
+    import os
+    p = os.path.join(os.path.dirname(os.path.dirname(os.path.abspath(__file__))), "corpus", "glr_grammars.json")
+    return json.load(open(p))
+
+
 def gen_jobs(rng, quick, opts_list, with_lexical=True, nrand=None, maxlen=None, layout_variants=True):
-    """list of worker jobs: curated + lexical + random grammars, each under each opts"""
+    """list of worker jobs: corpus (past findings, run first) + curated + lexical + random
+    grammars, each under each opts"""
     jobs = []
+    for e in corpus():
+        inputs = list(gramgen.all_strings(list(e["alphabet"]), e["maxlen"] if not quick else min(e["maxlen"], 6)))
+        if len(e["alphabet"]) == 1:
+            inputs = [e["alphabet"] * k for k in range(e["maxlen"] + 1)]
+        for o in opts_list:
+            jobs.append((e["name"], e["text"], inputs, o))
     maxlen = maxlen or (5 if quick else 6)
     variants = [lambda s: s, lambda s: " " + " ".join(s) + " ", lambda s: "\n".join(s) + "\t"]
     fams = list(gramgen.CURATED)
@@ -132,4 +146,23 @@ def gen_jobs(rng, quick, opts_list, with_lexical=True, nrand=None, maxlen=None, 
         inputs = ["b" * k for k in range(0, (6 if quick else 8))]
         o = opts_list[i % len(opts_list)]
         jobs.append(("unary%d" % i, text, inputs, o))
+    for i in range(nun):
+        r = gramgen.nullable2_grammar(rng)
+        if r is None:
+            continue
+        prods, text = r
+        inputs = list(gramgen.all_strings(["a", "b"], 4 if quick else 6))
+        if quick:
+            longer = [s for s in gramgen.all_strings(["a", "b"], 6) if len(s) > 4]
+            rng.shuffle(longer)
+            inputs += longer[:40]
+        jobs.append(("null2_%d" % i, text, inputs, opts_list[i % len(opts_list)]))
+    if with_lexical:
+        for i in range(nun // 2):
+            r = gramgen.lexlen_grammar(rng)
+            if r is None:
+                continue
+            prods, text = r
+            inputs = list(gramgen.all_strings(["a", "b"], 5 if quick else 6))
+            jobs.append(("lexlen%d" % i, text, inputs, opts_list[i % len(opts_list)]))
     return jobs
